@@ -352,7 +352,16 @@ class AttributeSet(TypedExpression):
                 return apply_trailing_trivia(set_str, self.after, indent=indent)
             return self.add_trivia(f"{prefix}{{ }}", indent=indent, inline=inline)
 
-        if self.multiline:
+        multiline = self.multiline
+        if not multiline:
+            render_values = self.attrpath_order if self.attrpath_order else self.values
+            inline_bindings = _render_bindings(render_values, indent=indented, inline=True)
+            if any("\n" in rendered for rendered in inline_bindings):
+                # A binding that spans several lines cannot sit in a one-line
+                # set: the next parse would see a multi-line set and re-flow it.
+                multiline = True
+
+        if multiline:
             before_str = format_trivia(self.before, indent=indent)
             render_values = self.attrpath_order if self.attrpath_order else self.values
             bindings_str = "\n".join(
@@ -371,10 +380,7 @@ class AttributeSet(TypedExpression):
             )
             return apply_trailing_trivia(set_str, self.after, indent=indent)
         else:
-            render_values = self.attrpath_order if self.attrpath_order else self.values
-            bindings_str = " ".join(
-                _render_bindings(render_values, indent=indented, inline=True)
-            )
+            bindings_str = " ".join(inline_bindings)
             return self.add_trivia(
                 f"{prefix}{{ {bindings_str} }}", indent=indent, inline=inline
             )
